@@ -83,6 +83,8 @@ pub struct World {
     pub prefix: bool,
     /// the tasks of the (single) process when it was last seen in the cache
     pub last_tasks: Vec<(Key, String, String, String)>,
+    /// ... the same for every process (multi-process scenarios)
+    pub last_by_pid: HashMap<String, Vec<(Key, String, String, String)>>,
 }
 
 /// wait until nothing is in flight; false if the engine does not get there within a few seconds
@@ -182,6 +184,7 @@ impl World {
             stuck: false,
             prefix: false,
             last_tasks: Vec::new(),
+            last_by_pid: HashMap::new(),
         }
     }
 
@@ -265,7 +268,9 @@ impl World {
             let p = match verif::dump_proc(&self.engine, pid) {
                 Some(p) => p,
                 None => {
-                    procs.insert(pid.clone(), json!({"cached": false}));
+                    // not in the cache; what it has queued is still queued
+                    let q: Vec<Value> = gate.iter().filter(|(p, _)| p == pid).map(|(p, t)| self.key_of(p, t)).collect();
+                    procs.insert(pid.clone(), json!({"cached": false, "q": q}));
                     continue;
                 }
             };
@@ -301,6 +306,7 @@ impl World {
                     "emitOff": flag("$emit_disabled"),
                     "catchDone": flag("$is_catch_processed"),
                     "hookAct": flag("$is_event_processed"),
+                    "noauto": data.get("$auto_complete").and_then(|v| v.as_bool()) == Some(false),
                 }));
             }
             let q: Vec<Value> = gate
@@ -308,10 +314,21 @@ impl World {
                 .filter(|(p, _)| p == pid)
                 .map(|(p, t)| self.key_of(p, t))
                 .collect();
+            // the calling act of a child process and the inputs it was started with: root data
+            let root = p["tasks"].as_array().unwrap().iter().find(|t| t["tid"] == "$");
+            let rdata = root.map(|t| t["data"].clone()).unwrap_or(Value::Null);
+            let link = match (rdata.get("$parent_pid").and_then(|v| v.as_str()), rdata.get("$parent_tid").and_then(|v| v.as_str())) {
+                (Some(pp), Some(pt)) => json!({"pid": pp, "t": self.key_of(pp, pt)}),
+                _ => json!({"pid": "nil", "t": nokey()}),
+            };
+            let num = |k: &str| rdata.get(k).and_then(|v| v.as_i64()).unwrap_or(0);
             procs.insert(
                 pid.clone(),
                 json!({
                     "cached": true,
+                    "mid": p["mid"],
+                    "link": link,
+                    "inp": {"v": num("v"), "w": num("w")},
                     "ps": p["state"],
                     "perr": match &p["err"] { Value::Object(e) => e["ecode"].clone(), _ => json!("nil") },
                     "env": canon(&p["env"]),
@@ -350,7 +367,7 @@ impl World {
         let jobs: Vec<Value> = verif::jobs_list()
             .iter()
             .filter(|(k, _, _)| !k.starts_with("dispatch:"))
-            .map(|(k, a, b)| json!({"kind": k, "pid": a, "tid": b}))
+            .map(|(k, a, b)| json!({"kind": k, "pid": a, "tid": b, "t": if k == "return" { self.key_of(a, b) } else { nokey() }}))
             .collect();
         json!({"procs": procs, "jobs": jobs, "now": (verif::clock_now() - CLOCK_BASE) / 1000, "rows": rows})
     }
@@ -397,6 +414,12 @@ impl World {
                 self.last_tasks = self.live_tasks(&pid);
             }
         }
+        for pid in self.pids.clone() {
+            if verif::dump_proc(&self.engine, &pid).is_some() {
+                let ts = self.live_tasks(&pid);
+                self.last_by_pid.insert(pid, ts);
+            }
+        }
     }
 
     pub fn model_line(&mut self, name: &str, tree: Value, inputs: &Value, extra: Value) {
@@ -425,7 +448,69 @@ impl World {
         ok
     }
 
+    /// a start through the client API of the model at offset `mo` before the main model of the bundle
+    pub async fn start_model(&mut self, mid: &str, mo: usize, pid: &str, inputs: &Value) -> bool {
+        let mut vars = Vars::new();
+        if let Value::Object(map) = inputs {
+            for (k, v) in map {
+                vars.insert(k.clone(), v.clone());
+            }
+        }
+        vars.insert("pid".to_string(), json!(pid));
+        let res = self.exec.proc().start(mid, &vars);
+        let ok = res.is_ok();
+        if !self.pids.contains(&pid.to_string()) {
+            self.pids.push(pid.to_string());
+        }
+        self.record(json!({"a": "StartCall", "pid": pid, "mid": mid, "mo": mo, "inputs": inputs,
+            "res": if ok { "ok".to_string() } else { format!("err:{}", res.err().unwrap()) }}))
+            .await;
+        ok
+    }
+
+    /// run the parked return of a child process to the calling act (ppid, ptid)
+    pub async fn ret(&mut self, ppid: &str, ptid: &str) -> bool {
+        let jobs = verif::jobs_list();
+        let pos = jobs.iter().position(|(k, a, b)| k == "return" && a == ppid && b == ptid);
+        let ran = match pos {
+            Some(i) => verif::job_run(i),
+            None => false,
+        };
+        let t = self.key_of(ppid, ptid);
+        self.record(json!({"a": "Return", "pid": ppid, "t": t, "kind": "nil", "res": if ran { "?" } else { "err:nojob" },
+            "opts": {"ecode": "nil", "to": "nil"}}))
+            .await;
+        // what the action was and how it ended: the hook's record
+        let mut ok = false;
+        if let Some(last) = self.lines.last_mut() {
+            let found = last["others"].as_array().and_then(|o| o.iter().find(|e| e["ev"] == "ret").cloned());
+            if let Some(e) = found {
+                let kind = match e["action"].as_str().unwrap_or("") {
+                    "next" => "complete",
+                    k => k,
+                }
+                .to_string();
+                last["kind"] = json!(kind);
+                last["res"] = e["res"].clone();
+                ok = e["res"] == "ok";
+            }
+        }
+        ok
+    }
+
+    /// tasks of any process as last seen
+    pub fn tasks_of(&self, pid: &str) -> Vec<(Key, String, String, String)> {
+        if verif::dump_proc(&self.engine, pid).is_none() {
+            return self.last_by_pid.get(pid).cloned().unwrap_or_default();
+        }
+        self.live_tasks(pid)
+    }
+
     pub async fn launch(&mut self, pid: &str) -> bool {
+        // a process id taken again (its former process has left): the task keys start afresh
+        self.keys.retain(|k, _| k.0 != pid);
+        self.tids.retain(|k, _| k.0 != pid);
+        self.counters.retain(|k, _| k.0 != pid);
         let jobs = verif::jobs_list();
         let pos = jobs.iter().position(|(k, a, _)| k == "launch" && a == pid);
         let ok = match pos {
